@@ -281,31 +281,34 @@ pub fn ans_state(case: &Value, mode: &str, rep: &mut Report) {
     let _ = json!(null);
 }
 
-fn replay_lines(lines: &[String], mode: &str) -> Report {
+fn replay_lines(lines: &[(usize, String)], mode: &str, skip: &std::collections::HashSet<usize>) -> Report {
     let mut rep = Report::default();
-    for line in lines {
+    for (idx, line) in lines {
+        if skip.contains(idx) { continue; }
         beat(line);
+        set_thread_case(*idx, line);
         let case: Value = serde_json::from_str(line).expect("json");
         rep.cases += 1;
         if rep.samples.len() < 2 { rep.samples.push(case.clone()); }
         match case["k"].as_str().unwrap_or("") {
             "ans_state" => ans_state(&case, mode, &mut rep),
             "range_hist" => crate::range_replay::range_hist(&case, mode, &mut rep),
+            "fixed" | "uniform" | "fast" | "leaky" => crate::models::model_case(&case, mode, &mut rep),
             k => { eprintln!("unknown case kind {}", k); std::process::exit(2); }
         }
     }
     rep
 }
 
-pub fn replay_file(path: &str, mode: &str) -> Report {
+pub fn replay_file(path: &str, mode: &str, skip: &std::collections::HashSet<usize>) -> Report {
     let text = std::fs::read_to_string(path).expect("open input");
-    let lines: Vec<String> = text.lines().filter(|l| !l.trim().is_empty()).map(|l| l.to_string()).collect();
+    let lines: Vec<(usize, String)> = text.lines().filter(|l| !l.trim().is_empty()).map(|l| l.to_string()).enumerate().collect();
     let nthreads = std::env::var("VH_THREADS").ok().and_then(|s| s.parse().ok()).unwrap_or(12usize).max(1);
-    if lines.len() < 64 || nthreads == 1 { return replay_lines(&lines, mode); }
+    if lines.len() < 64 || nthreads == 1 { return replay_lines(&lines, mode, skip); }
     let chunk = (lines.len() + nthreads - 1) / nthreads;
     let mut total = Report::default();
     std::thread::scope(|sc| {
-        let hs: Vec<_> = lines.chunks(chunk).map(|ch| { let m = mode.to_string(); std::thread::Builder::new().stack_size(64 << 20).spawn_scoped(sc, move || replay_lines(ch, &m)).unwrap() }).collect();
+        let hs: Vec<_> = lines.chunks(chunk).map(|ch| { let m = mode.to_string(); std::thread::Builder::new().stack_size(64 << 20).spawn_scoped(sc, move || replay_lines(ch, &m, skip)).unwrap() }).collect();
         for h in hs { let r = h.join().expect("replay thread"); total.merge(r); }
     });
     total
